@@ -60,7 +60,7 @@ def check(run, prog, tier):
            f"deferral depth of the transmission: {waves}" + ("" if uniform else
            " - operations with different depths overtake each other: a StopSubscribe can reach the server before the Subscribe it cancels (or vice versa)"))
     # refresh round: no await between computing the pairs and sending them
-    eng = engine(prog, InlineOnly(names=(), props=False, max_depth=0, unroll=2, cancel=False))
+    eng = engine(prog, InlineOnly(names=(), props=False, max_depth=0, unroll=3 if tier == "thorough" else 2, cancel=False))
     sp = eng.paths(m["_subscribe"], recv=SUBS)
     run.paths += len(sp)
     leaf = timing_leaf(me)
